@@ -133,6 +133,12 @@ var (
 		Text: "XCH.1 for every Object type ToInterface yields a Go type that FromInterface turns back into the same Object type (immutable→mutable tabled), containers recurse, documented Go input kinds arrive as documented; XCH.2 each typed accessor of Variable returns the first result of the To* function of its return type; XCH.3 Set looks the name up and rejects unknown names before storing, Get/GetAll read nil slots as undefined, host variables are defined before the script is compiled"}
 	rCLONE1 = &Rule{Name: "CLONE.1", Floor: 5, Fn: ruleCLONE1,
 		Text: "Clone makes a fresh globals slice filled with g.Copy() and marks the clone as sharing bytecode; ReplaceBuiltinModule copies bytecode and indexes (copy-on-write) before writing; Bytecode.Clone copies the constant slice"}
+	rFATAL1 = &Rule{Name: "FATAL.1", Floor: 3, Fn: ruleFATAL1,
+		Text: "faults recover() cannot catch: no process-terminating call (os.Exit, log.Fatal, runtime.Goexit) is reachable from VM.Run outside the tabled os module; every recursive component of the call graph reachable from VM.Run (value walkers with no depth bound or visited set) is listed as a known finding - a new one is a violation"}
+	rPANIC4 = &Rule{Name: "PANIC.4", Floor: 2, Fn: rulePANIC4,
+		Text: "every recursive component of the call graph on the scan/parse/compile path (recursion on input nesting depth with no limit: native stack exhaustion is fatal) is listed as a known finding - a new one is a violation"}
+	rSHARE = &Rule{Name: "SHARE", Floor: 4, Fn: ruleSHARE,
+		Text: "SHARE.1 in functions reachable from VM.Run (VTA call graph) no field of a clone-shared type (everything reachable from Bytecode: constants, compiled functions, file set) is stored to except on an object allocated in the same function; the two lazily filled caches are known findings; SHARE.2 no package-level variable of the core packages is written under Run"}
 )
 
 func allProperties() []*Property {
@@ -152,11 +158,11 @@ func allProperties() []*Property {
 		{ID: "C04",
 			Decided:    "every explicit panic reachable from the scan/parse/compile entry points is recovered in place, proven unreachable from re-checked premises, or a listed finding; scope switches are exhaustive; the globals slot count is checked; compiler scope/loop stacks are balanced on error paths; parser error positions are token/node start positions.",
 			NotDecided: "termination; implicit run-time panics in general (index, nil, slice bounds); that every reported position lies inside the input.",
-			Rules:      []*Rule{rPANIC1, rPANIC2, rPANIC3, rSCOPE1, rJMP2, rNEWPARSER, rPOSARG}},
+			Rules:      []*Rule{rPANIC1, rPANIC2, rPANIC3, rPANIC4, rSCOPE1, rJMP2, rNEWPARSER, rPOSARG}},
 		{ID: "C05",
 			Decided:    "the structure that turns any ordinary panic of the VM goroutine into a returned error, waits for that goroutine, and releases the lock by defer on every exit.",
 			NotDecided: "which run-time faults a script can provoke; faults recover() cannot catch are only partly covered (thorough).",
-			Rules:      []*Rule{rREC, rLOCK}},
+			Rules:      []*Rule{rREC, rLOCK, rFATAL1}},
 		{ID: "C06",
 			Decided:    "count-then-check at every allocation site with a count-down counter read only against zero; every object the VM creates is counted; every String/Bytes producer in package tengo is guarded or bounded by construction; formatter output grows only behind the limit check; frame pushes are guarded.",
 			NotDecided: "the numbers as run-time facts (exactly N allocations, results unchanged when N grows); allocation inside Go library calls; stdlib-module producers.",
@@ -168,7 +174,7 @@ func allProperties() []*Property {
 		{ID: "C08",
 			Decided:    "lock discipline of *Compiled; Copy is deep and fresh (what makes per-clone globals independent).",
 			NotDecided: "absence of data races over all interleavings; equality with the sequential baseline.",
-			Rules:      []*Rule{rLOCK, rCOPY1, rCLONE1}},
+			Rules:      []*Rule{rLOCK, rCOPY1, rCLONE1, rSHARE}},
 		{ID: "C09",
 			Decided:    "no route from the storage of an immutable array/map to a write or to a mutable owner, in any function of any package (ownership rule on two fields).",
 			NotDecided: "immutability broken by embedder code or unsafe/reflect (neither occurs in the tree).",
